@@ -117,6 +117,8 @@ def factory_vd(ns, props, relational=False, **kw):
                     if out2 is not None and not is_ret(out2):
                         obs.append(oblige(eng, 'accepted envelope stays accepted when stripped to its counting signatures', True, mk))
             else:
+                if 'C02' in props:
+                    obs.append(oblige(eng, 'enough valid signatures by the keys of the delegated role (type bound) => verify_delegation returns normally', o['accept_strict'], mk))
                 if 'C05' in props:
                     obs.append(oblige(eng, 'properly signed for the delegated role (and declaring it, if delegating metadata) => accepted', o['accept_strict'], mk))
                     if not exc_in(out, ('UnknownRoleError', 'MetadataVerificationError')):
@@ -280,10 +282,10 @@ def judge_vd(case, obs, props):
             if so is not None and so['kind'] != 'ret':
                 return f'accepted envelope is rejected ({so["cls"]}) once stripped to its valid authorised signatures: acceptance depended on unsigned content'
     else:
-        if 'C05' in props:
+        if 'C05' in props or 'C02' in props:
             if wfT and role is not None and thr_int and strict >= role['threshold'] and type_ok and mode_ok and isinstance(name, str):
                 return f'verify_delegation raised {oc["cls"]} ({oc["msg"]:.100}) although role {name!r} is delegated and its keys/threshold are met ({strict} >= {role["threshold"]})'
-            if wfT and isinstance(name, str) and mode_ok and role is None and type_ok and 'UnknownRoleError' not in oc['mro']:
+            if 'C05' in props and wfT and isinstance(name, str) and mode_ok and role is None and type_ok and 'UnknownRoleError' not in oc['mro']:
                 return f'undelegated role {name!r} reported as {oc["cls"]} instead of UnknownRoleError'
         if 'C13' in props:
             if not CC.documented(oc):
@@ -393,7 +395,7 @@ def factory_vr(ns, props, **kw):
                     obs.append(oblige(eng, 'accepted => both well-formed root metadata, version exactly +1, signatures meet the trusted root rule and the new root rule',
                                       z3.Not(o['accept_lib']), mk))
             else:
-                if 'C03' in props:
+                if 'C03' in props or 'C02' in props:
                     obs.append(oblige(eng, 'well-formed successor signed per both rule sets => accepted', o['accept_strict'], mk))
                 if 'C13' in props:
                     if not documented(out):
@@ -462,7 +464,7 @@ def judge_vr(case, obs, props):
             return (f'verify_root accepted: both well-formed root metadata delegating root={ok_pre}, version exactly +1={succ} '
                     f'({Tm["signed"].get("version")!r} -> {U["signed"].get("version")!r}), both rule sets met={lib_ok}')
     else:
-        if 'C03' in props and ok_pre and succ and strict_ok:
+        if ('C03' in props or 'C02' in props) and ok_pre and succ and strict_ok:
             return f'verify_root raised {oc["cls"]} ({oc["msg"]:.100}) on a well-formed successor signed per the trusted and the new root rules'
         if 'C13' in props:
             if not CC.documented(oc):
